@@ -290,3 +290,7 @@ func MonitorEnd() {}
 // MonitorIgnore declares objects that stand for the environment (e.g. a fake
 // net.Conn modelling a concurrency-safe socket): their cells are not shared state.
 func MonitorIgnore(roots ...interface{}) {}
+
+// LiveGoroutines returns the number of goroutines spawned on this path that
+// have not finished (engine only; natively 0).
+func LiveGoroutines() int { return 0 }
